@@ -295,6 +295,18 @@ void initialize_output_filters(void)
 {
 	const char * m4 = NULL;
 
+	if (env.headerfilename != NULL) {
+		/* Find out now whether the header file can be created.  It is
+		 * opened by a process of the filter chain, whose failure would
+		 * only break the pipe this process writes to.
+		 */
+		FILE   *header = fopen (env.headerfilename, "w");
+
+		if (header == NULL)
+			lerr (_("could not create %s"), env.headerfilename);
+		fclose (header);
+	}
+
 	output_chain = filter_create_int(NULL, filter_tee_header, env.headerfilename);
 	if ( !(m4 = getenv("M4"))) {
 		m4 = M4;
